@@ -696,7 +696,7 @@ def check(rep: Report, tier: str, seed: int) -> None:
     rep.extra["t_energy_bridge_s"] = round(time.time() - t1, 1)
     energy_stage.merge()
     rep.extra["t_total_s"] = round(time.time() - t0, 1)
-    if rep.broken and not rep.failing:
+    if rep.broken and not rep.unknown_failing():
         search(rep, seed, 100 if tier == "quick" else 1000)
 
 
